@@ -3,6 +3,7 @@ package main
 
 func init() {
 	const mdir = "core/log/metric"
+	const ddir = "ext/datasource"
 	targets = append(targets,
 		// =============================== C17: writer.go ===============================
 		// isNewDay: (sec + zone) / 86400 > (lastSec + zone) / 86400, Go's truncating int64 division
@@ -183,6 +184,81 @@ func init() {
 			Hints: map[string]hint{
 				"items == nil || len(items) == 0": {"items_empty", "bool"},
 				"items[len(items)-1].Timestamp":   {"last_ts", "uint64"}}},
+		// =============================== C18: ext/datasource ===============================
+		// isPropertyConsistent: 1 = reflect.DeepEqual(src, last) (value: deep_equal), 2 = lastUpdateProperty = src
+		target{Dir: ddir, Func: "DefaultPropertyHandler.isPropertyConsistent", Name: "ds_isPropertyConsistent", IO: true,
+			Acts:     map[string]act{"reflect.DeepEqual": {Tag: 1, Ret: hint{"deep_equal", "bool"}}},
+			IOStores: map[string]act{"h.lastUpdateProperty": {Tag: 2}}},
+		// Handle: 1 = converter(src), 2 = isPropertyConsistent(real) (value: consistent), 3 = updater(real),
+		// 4 = lastUpdateProperty = lastProperty (the deferred restore, run at every return after the defer statement)
+		target{Dir: ddir, Func: "DefaultPropertyHandler.Handle", Name: "ds_Handle", IO: true,
+			Hints: map[string]hint{"h.lastUpdateProperty": {"", "opaque"}},
+			Acts: map[string]act{
+				"h.converter":            {Tag: 1},
+				"h.isPropertyConsistent": {Tag: 2, Ret: hint{"consistent", "bool"}},
+				"h.updater":              {Tag: 3}},
+			Rets: map[string]hint{
+				"h.converter": {"conv", "opaque,opaque"},
+				"h.updater":   {"upd_err", "opaque"}},
+			IOStores: map[string]act{"h.lastUpdateProperty": {Tag: 4}}},
+		// checkSrcComplianceJson: an empty payload is (false, nil)
+		target{Dir: ddir, Func: "checkSrcComplianceJson", Name: "ds_checkSrcComplianceJson",
+			Hints: map[string]hint{"len(src) == 0": {"src_empty", "bool"}}},
+		// the *JsonArrayParser functions: result codes (property: 0 nil / 1 the decoded slice; error: 0 nil / 1 the
+		// compliance error / 2 ConvertSourceError); trace: 1 = json.Unmarshal
+		parserTarget("FlowRuleJsonArrayParser", "ds_FlowParser", "make([]*flow.Rule, 0, 8)"),
+		parserTarget("SystemRuleJsonArrayParser", "ds_SystemParser", "make([]*system.Rule, 0, 8)"),
+		parserTarget("CircuitBreakerRuleJsonArrayParser", "ds_BreakerParser", "make([]*cb.Rule, 0, 8)"),
+		parserTarget("IsolationRuleJsonArrayParser", "ds_IsolationParser", "make([]*isolation.Rule, 0, 8)"),
+		// the hotspot parser: the same frame with its copy loop marked (action 5), and ONE iteration of the copy loop:
+		// a nil element is skipped; otherwise rules[i] = &hotspot.Rule{...}: action 5 with the twelve field values
+		func() target {
+			t := parserTarget("HotSpotParamRuleJsonArrayParser", "ds_HotspotParser", "make([]*HotspotRule, 0, 8)")
+			t.Hints["make([]*hotspot.Rule, len(hotspotRules))"] = hint{"", "opaque"}
+			t.LoopMarks = map[int]act{1: {Tag: 5}}
+			return t
+		}(),
+		func() target {
+			t := parserTarget("HotSpotParamRuleJsonArrayParser", "ds_HotspotParser_step", "make([]*HotspotRule, 0, 8)")
+			t.Hints["make([]*hotspot.Rule, len(hotspotRules))"] = hint{"", "opaque"}
+			t.LoopBody = 1
+			t.RangeVars = map[string]string{"hotspotRule": "*HotspotRule"}
+			t.IOStores = map[string]act{"rules[i]": {Tag: 5}}
+			t.StoreFields = []string{"ID", "Resource", "MetricType", "ControlBehavior", "ParamIndex", "ParamKey", "Threshold",
+				"MaxQueueingTimeMs", "BurstCount", "DurationInSec", "ParamsMaxCapacity", "SpecificItems"}
+			t.AbsCalls = map[string]hint{"parseSpecificItems": {"parse_items", "iface"}}
+			return t
+		}(),
+		// the *RulesUpdater functions: 1 = ClearRules (its error is the result), 2 = rules = append(rules, &v) for each
+		// element of a []Rule, 3 = rules = val (a []*Rule), 4 = LoadRules(rules); error 2 = UpdatePropertyError
+		updaterTarget("FlowRulesUpdater", "ds_FlowUpdater", "flow", "flow"),
+		updaterTarget("SystemRulesUpdater", "ds_SystemUpdater", "system", "system"),
+		updaterTarget("CircuitBreakerRulesUpdater", "ds_BreakerUpdater", "cb", ""),
+		updaterTarget("HotSpotParamRulesUpdater", "ds_HotspotUpdater", "hotspot", "hotspot"),
+		updaterTarget("IsolationRulesUpdater", "ds_IsolationUpdater", "isolation", "isolation"),
+		// =============================== C18: ext/datasource/file ===============================
+		// the watcher goroutine (function literal 1 of Initialize): ONE iteration of its select loop.
+		// select_case 0 = a file event, 1 = a watcher error, 2 = closeChan.  Trace: 1 = s.Handle(nil), 2 = watcher.Remove(path),
+		// 9 = the retry loop (marked; its own step below), 3 = s.Close(), 4 = doReadAndUpdate, 5 = watcher.Close() (deferred: at every return)
+		target{Dir: ddir + "/file", Func: "RefreshableFileDataSource.Initialize", Name: "ds_file_watch_step", IO: true, Lit: 1, LoopBody: 1,
+			Hints: map[string]hint{
+				"ev.Op&fsnotify.Rename == fsnotify.Rename": {"is_rename", "bool"},
+				"ev.Op&fsnotify.Remove == fsnotify.Remove": {"is_remove", "bool"}},
+			Acts:      fileActs,
+			Rets:      map[string]hint{"s.Handle": {"handle_err", "opaque"}, "s.doReadAndUpdate": {"read_err", "opaque"}},
+			SeqHints:  map[string]bool{"s.Handle": true},
+			LoopMarks: map[int]act{2: {Tag: 9}}},
+		// the retry loop after a rename: more than five failed attempts -> Close and return; success -> go on
+		target{Dir: ddir + "/file", Func: "RefreshableFileDataSource.Initialize", Name: "ds_file_retry_step", IO: true, Lit: 1,
+			LoopBody: 2, LoopAny: true,
+			Acts:    fileActs,
+			Rets:    map[string]hint{"s.watcher.Add": {"add_err", "opaque"}},
+			Effects: []string{"util.Sleep("}},
+		// doReadAndUpdate: 1 = ReadSource, 2 = Handle(src); a read error is returned without calling Handle
+		target{Dir: ddir + "/file", Func: "RefreshableFileDataSource.doReadAndUpdate", Name: "ds_file_doReadAndUpdate", IO: true,
+			Acts: map[string]act{"s.ReadSource": {Tag: 1}, "s.Handle": {Tag: 2}},
+			Rets: map[string]hint{"s.ReadSource": {"src", "opaque,opaque"}, "s.Handle": {"handle_err", "error"}},
+			Errs: map[string]int{"errors.Errorf": 1}},
 	)
 }
 
@@ -217,3 +293,45 @@ var readerRets = map[string]hint{
 	"openFileAndSeekTo":            {"open", "opaque,opaque"},
 	"readLine":                     {"line", "opaque,opaque"},
 	"base.MetricItemFromFatString": {"item", "opaque,opaque"}}
+
+var fileActs = map[string]act{
+	"s.Handle":          {Tag: 1},
+	"s.watcher.Remove":  {Tag: 2},
+	"s.Close":           {Tag: 3},
+	"s.doReadAndUpdate": {Tag: 4},
+	"s.watcher.Close":   {Tag: 5},
+	"s.watcher.Add":     {Tag: 6}}
+
+func parserTarget(fn, name, makeText string) target {
+	return target{Dir: "ext/datasource", Func: fn, Name: name, IO: true,
+		Hints: map[string]hint{makeText: {"", "opaque"}},
+		Acts:  map[string]act{"json.Unmarshal": {Tag: 1}},
+		Rets: map[string]hint{
+			"checkSrcComplianceJson": {"compliance", "bool,opaque"},
+			"json.Unmarshal":         {"unmarshal_err", "opaque"}},
+		NilRes: []string{"interface{}"},
+		Errs:   map[string]int{"rules": 1, "NewError": 2}}
+}
+
+func updaterTarget(fn, name, pkg, valPkg string) target {
+	t := target{Dir: "ext/datasource", Func: fn, Name: name, IO: true,
+		Hints: map[string]hint{
+			"data == nil":                     {"data_nil", "bool"},
+			"make([]*" + pkg + ".Rule, 0, 8)": {"", "opaque"},
+			"data.([]*" + pkg + ".Rule)":      {"", "opaque"},
+			"data.([]*" + pkg + ".Rule) ok":   {"is_ptrs", "bool"}},
+		Acts: map[string]act{
+			pkg + ".ClearRules": {Tag: 1},
+			"append(rules, &v)": {Tag: 2},
+			pkg + ".LoadRules":  {Tag: 4}},
+		Rets: map[string]hint{
+			pkg + ".ClearRules": {"clear_err", "error"},
+			pkg + ".LoadRules":  {"load", "opaque,opaque"}},
+		IOStores: map[string]act{"rules": {Tag: 3}},
+		Errs:     map[string]int{"NewError": 2}}
+	if valPkg != "" {
+		t.Hints["data.([]"+valPkg+".Rule)"] = hint{"", "opaque"}
+		t.Hints["data.([]"+valPkg+".Rule) ok"] = hint{"is_values", "bool"}
+	}
+	return t
+}
